@@ -1,8 +1,636 @@
 package main
 
-import "verifharness/hx"
+// Concurrent half of the C13 tie.  One round = one reactive Variable[int] / Set[int] / Event shared by 4-8
+// goroutines: writers, subscribers (subscribing at random moments, with and without the initial-trigger flag),
+// and unsubscribers.  Every subscription records its events (callback enter / exit, unsubscribe returned) stamped
+// by one atomic logical clock; after all goroutines have been joined (guarded by a generous timeout that becomes
+// an oracle failure) each subscription's log is printed as one request line.  The Lean driver judges the line
+// with the trace predicates of Hive/Spec/Reactive.lean; judgeLogLine below evaluates the same facts directly.
 
-func runStressLines(r *hx.Run, op string)       {}
-func isLogLine(op string) bool                  { return false }
-func judgeLogLine(r *hx.Run, op string) string  { return "accept" }
-func runStress(r *hx.Run)                       {}
+import (
+	"crypto/sha256"
+	"fmt"
+	"runtime"
+	"sort"
+	"strconv"
+	"strings"
+	"sync"
+	"sync/atomic"
+	"time"
+
+	"verifharness/hx"
+
+	"github.com/iotaledger/hive.go/ds"
+	"github.com/iotaledger/hive.go/ds/reactive"
+)
+
+const joinTimeout = 120 * time.Second
+
+type evRec struct {
+	stamp int64
+	tok   string // e:<p>:<n> | e:<added>:<deleted> | x | u
+}
+
+// subLog is one subscription.
+type subLog struct {
+	mu       sync.Mutex
+	evs      []evRec
+	unsubbed atomic.Bool // an unsubscribe call was started
+	returned atomic.Bool // ... and has returned
+	inside   atomic.Int32
+	direct   atomic.Value // string: first violation seen from inside a callback
+	unsub    func()
+}
+
+type round struct {
+	clock atomic.Int64
+	mu    sync.Mutex
+	subs  []*subLog
+}
+
+func (rd *round) newSub() *subLog {
+	s := &subLog{}
+	rd.mu.Lock()
+	rd.subs = append(rd.subs, s)
+	rd.mu.Unlock()
+
+	return s
+}
+
+func (s *subLog) add(st int64, tok string) {
+	s.mu.Lock()
+	s.evs = append(s.evs, evRec{st, tok})
+	s.mu.Unlock()
+}
+
+// body is what every callback does around its own work.
+func (rd *round) body(s *subLog, note string) {
+	st := rd.clock.Add(1)
+	if s.inside.Add(1) != 1 {
+		s.direct.CompareAndSwap(nil, "overlap")
+	}
+	if s.returned.Load() {
+		s.direct.CompareAndSwap(nil, "after-unsubscribe")
+	}
+	s.add(st, "e:"+note)
+	if st%3 == 0 {
+		runtime.Gosched()
+	}
+	if st%7 == 0 {
+		x := 0
+		for i := 0; i < 300; i++ {
+			x += i
+		}
+		_ = x
+	}
+	s.inside.Add(-1)
+	s.add(rd.clock.Add(1), "x")
+}
+
+func (rd *round) doUnsub(s *subLog) {
+	s.unsubbed.Store(true)
+	s.unsub()
+	s.returned.Store(true)
+	s.add(rd.clock.Add(1), "u")
+}
+
+func dally(rng *hx.Rng) {
+	for n := rng.Intn(4); n > 0; n-- {
+		runtime.Gosched()
+	}
+	if rng.Chance(1, 4) {
+		x := 0
+		for i := rng.Intn(2000); i > 0; i-- {
+			x += i
+		}
+		_ = x
+	}
+}
+
+// join waits for the goroutines of a round; false on timeout.
+func join(wg *sync.WaitGroup) bool {
+	done := make(chan struct{})
+	go func() { wg.Wait(); close(done) }()
+	select {
+	case <-done:
+		return true
+	case <-time.After(joinTimeout):
+		return false
+	}
+}
+
+func (s *subLog) line(kind, final string) string {
+	s.mu.Lock()
+	evs := append([]evRec(nil), s.evs...)
+	s.mu.Unlock()
+	sort.Slice(evs, func(i, j int) bool { return evs[i].stamp < evs[j].stamp })
+	toks := make([]string, len(evs))
+	for i, e := range evs {
+		toks[i] = e.tok
+	}
+	act := "active"
+	if s.unsubbed.Load() {
+		act = "unsubbed"
+	}
+
+	return strings.TrimSpace(kind + " " + act + " " + final + " " + strings.Join(toks, " "))
+}
+
+// ---- the rounds ------------------------------------------------------------------------------------------------
+
+type subscribeFn func(rd *round, s *subLog, flag bool)
+
+// runRound starts writers / subscribers / unsubscribers and joins them.
+func runRound(r *hx.Run, rng *hx.Rng, kind string, writers []func(*hx.Rng), subscribe subscribeFn, pre func(rd *round)) (*round, bool) {
+	rd := &round{}
+	if pre != nil {
+		pre(rd)
+	}
+	var wg sync.WaitGroup
+	start := make(chan struct{})
+	handles := make(chan *subLog, 64)
+	for _, w := range writers {
+		w, wr := w, hx.NewRng(rng.U64())
+		wg.Add(1)
+		go func() {
+			defer wg.Done()
+			<-start
+			if p := hx.Safely(func() { w(wr) }); p != "" {
+				r.Fail("panic", "writer panicked: "+p, map[string]string{"oracle": "panic", "mode": "stress", "kind": kind})
+			}
+		}()
+	}
+	nsub := rng.Range(1, 3)
+	var subWg sync.WaitGroup
+	for i := 0; i < nsub; i++ {
+		sr := hx.NewRng(rng.U64())
+		wg.Add(1)
+		subWg.Add(1)
+		go func() {
+			defer wg.Done()
+			defer subWg.Done()
+			<-start
+			for k := sr.Range(1, 3); k > 0; k-- {
+				dally(sr)
+				s := rd.newSub()
+				if p := hx.Safely(func() { subscribe(rd, s, sr.Bool()) }); p != "" {
+					r.Fail("panic", "OnUpdate panicked: "+p, map[string]string{"oracle": "panic", "mode": "stress", "kind": kind})
+
+					return
+				}
+				switch sr.Intn(4) {
+				case 0: // stays subscribed
+				case 1: // the subscriber unsubscribes itself, later
+					dally(sr)
+					rd.doUnsub(s)
+				default: // another goroutine unsubscribes
+					handles <- s
+				}
+			}
+		}()
+	}
+	nuns := rng.Range(1, 2)
+	go func() { subWg.Wait(); close(handles) }()
+	for i := 0; i < nuns; i++ {
+		ur := hx.NewRng(rng.U64())
+		wg.Add(1)
+		go func() {
+			defer wg.Done()
+			<-start
+			for s := range handles {
+				dally(ur)
+				rd.doUnsub(s)
+				if ur.Chance(1, 5) {
+					rd.doUnsubAgain(s)
+				}
+			}
+		}()
+	}
+	r.CountN("stress:goroutines", len(writers)+nsub+nuns)
+	close(start)
+	if !join(&wg) {
+		r.Fail("timeout", fmt.Sprintf("round on a %s did not finish within %s", kind, joinTimeout),
+			map[string]string{"oracle": "timeout", "mode": "stress", "kind": kind})
+
+		return rd, false
+	}
+
+	return rd, true
+}
+
+// doUnsubAgain calls an unsubscribe function a second time (must be harmless).
+func (rd *round) doUnsubAgain(s *subLog) { s.unsub() }
+
+func stressVar(r *hx.Run, rng *hx.Rng) bool {
+	v := reactive.NewVariable[int]()
+	nw := rng.Range(2, 3)
+	type tr struct{ prev, next int }
+	trs := make([][]tr, nw)
+	writers := make([]func(*hx.Rng), nw)
+	for w := 0; w < nw; w++ {
+		w := w
+		n := rng.Range(10, 40)
+		writers[w] = func(wr *hx.Rng) {
+			for j := 1; j <= n; j++ {
+				val := (w+1)*100000 + j
+				var prev int
+				switch wr.Intn(5) {
+				case 0:
+					prev = v.Compute(func(int) int { return val })
+				case 1:
+					v.Compute(func(cur int) int { return cur }) // no change: nobody may be notified
+
+					continue
+				default:
+					prev = v.Set(val)
+				}
+				trs[w] = append(trs[w], tr{prev, val})
+				if wr.Chance(1, 3) {
+					runtime.Gosched()
+				}
+			}
+		}
+	}
+	rd0sub := func(rd *round, s *subLog, flag bool) {
+		s.unsub = v.OnUpdate(func(p, n int) { rd.body(s, fmt.Sprintf("%d:%d", p, n)) }, flag)
+	}
+	rd, ok := runRound(r, rng, "var", writers, rd0sub, nil)
+	if !ok {
+		return false
+	}
+	// the value history from the writers' own observations
+	next := map[int]int{}
+	total := 0
+	for _, ts := range trs {
+		for _, t := range ts {
+			if _, dup := next[t.prev]; dup {
+				r.Fail("history", fmt.Sprintf("two writes returned the same previous value %d", t.prev),
+					map[string]string{"oracle": "history", "mode": "stress", "kind": "var"})
+			}
+			next[t.prev] = t.next
+			total++
+		}
+	}
+	hist := []string{"0"}
+	for cur, n := 0, 0; n <= total; n++ {
+		nx, ok := next[cur]
+		if !ok {
+			break
+		}
+		hist = append(hist, strconv.Itoa(nx))
+		cur = nx
+	}
+	final := v.Get()
+	if len(hist) != total+1 || hist[len(hist)-1] != strconv.Itoa(final) {
+		r.Fail("history", fmt.Sprintf("the writers' (previous,new) pairs do not form one chain from 0 to Get()=%d: %d of %d writes chained", final, len(hist)-1, total),
+			map[string]string{"oracle": "history", "mode": "stress", "kind": "var"})
+	}
+	emitRound(r, "var", "vhist "+strings.Join(hist, " "), rd, "vsub", strconv.Itoa(final))
+
+	return true
+}
+
+func stressEvent(r *hx.Run, rng *hx.Rng) bool {
+	e := reactive.NewEvent()
+	nw := rng.Range(2, 3)
+	var firsts atomic.Int32
+	writers := make([]func(*hx.Rng), nw)
+	for w := 0; w < nw; w++ {
+		writers[w] = func(wr *hx.Rng) {
+			dally(wr)
+			if wr.Chance(1, 4) {
+				e.Set(false) // never changes anything
+			}
+			if e.Trigger() {
+				firsts.Add(1)
+			}
+		}
+	}
+	sub := func(rd *round, s *subLog, flag bool) {
+		if flag {
+			s.unsub = e.OnTrigger(func() { rd.body(s, "0:1") })
+		} else {
+			s.unsub = e.OnUpdate(func(p, n bool) { rd.body(s, fmt.Sprintf("%d:%d", bi(p), bi(n))) })
+		}
+	}
+	rd, ok := runRound(r, rng, "event", writers, sub, nil)
+	if !ok {
+		return false
+	}
+	if firsts.Load() != 1 {
+		r.Fail("trigger-once", fmt.Sprintf("%d Trigger() calls reported to be the first", firsts.Load()),
+			map[string]string{"oracle": "trigger-once", "mode": "stress", "kind": "event"})
+	}
+	emitRound(r, "event", "vhist 0 1", rd, "vsub", strconv.Itoa(bi(e.Get())))
+
+	return true
+}
+
+func randSubset(rng *hx.Rng, u int) []int {
+	var xs []int
+	for e := 0; e < u; e++ {
+		if rng.Chance(1, 3) {
+			xs = append(xs, e)
+		}
+	}
+
+	return xs
+}
+
+func stressSet(r *hx.Run, rng *hx.Rng) bool {
+	const u = 6
+	s := reactive.NewSet[int](randSubset(rng, u)...)
+	nw := rng.Range(2, 3)
+	writers := make([]func(*hx.Rng), nw)
+	for w := 0; w < nw; w++ {
+		n := rng.Range(10, 40)
+		writers[w] = func(wr *hx.Rng) {
+			for j := 0; j < n; j++ {
+				switch wr.Intn(9) {
+				case 0:
+					s.Add(wr.Intn(u))
+				case 1:
+					s.Delete(wr.Intn(u))
+				case 2:
+					s.AddAll(ds.NewSet(randSubset(wr, u)...))
+				case 3:
+					s.DeleteAll(ds.NewSet(randSubset(wr, u)...))
+				case 4, 5:
+					s.Apply(mkMut(randSubset(wr, u), randSubset(wr, u)))
+				case 6:
+					x := wr.Intn(u)
+					s.Compute(func(cur ds.ReadableSet[int]) ds.SetMutations[int] {
+						if cur.Has(x) {
+							return mkMut(nil, []int{x})
+						}
+
+						return mkMut([]int{x}, nil)
+					})
+				default:
+					s.Replace(ds.NewSet(randSubset(wr, u)...))
+				}
+				if wr.Chance(1, 3) {
+					runtime.Gosched()
+				}
+			}
+		}
+	}
+	sub := func(rd *round, sl *subLog, flag bool) {
+		sl.unsub = s.OnUpdate(func(m ds.SetMutations[int]) { rd.body(sl, showMut(m)) }, flag)
+	}
+	// the reference subscription is registered before any goroutine starts and stays to the end (rd.subs[0])
+	rd, ok := runRound(r, rng, "set", writers, sub, func(rd *round) { sub(rd, rd.newSub(), true) })
+	if !ok {
+		return false
+	}
+	emitRound(r, "set", "", rd, "ssub", showInts(s.ToSlice()))
+
+	return true
+}
+
+// ---- emitting and judging the logs -----------------------------------------------------------------------------
+
+// judgeCtx carries what the lines of one round refer to: the variable's value history, the reference subscription.
+type judgeCtx struct {
+	kind string
+	hist []string // values, oldest first (variable / event)
+	ref  []string // notes of the set's reference subscription
+	has  bool
+}
+
+var curCtx = &judgeCtx{}
+
+func isLogLine(op string) bool {
+	f := strings.Fields(op)
+
+	return len(f) > 0 && (f[0] == "vsub" || f[0] == "ssub" || f[0] == "sref" || f[0] == "vhist")
+}
+
+func fail(r *hx.Run, kind, oracle, detail, line string) {
+	if len(line) > 600 {
+		line = line[:600] + "…"
+	}
+	r.Fail(oracle, detail+" | "+line, map[string]string{"oracle": oracle, "mode": "stress", "kind": kind})
+}
+
+func noteTokens(evs []string) (ns []string) {
+	for _, e := range evs {
+		if strings.HasPrefix(e, "e:") {
+			ns = append(ns, e[2:])
+		}
+	}
+
+	return ns
+}
+
+// runOf reports whether xs occurs as a contiguous run in ys (as a suffix if suffix is set).
+func runOf(xs, ys []string, suffix bool) bool {
+	if len(xs) == 0 {
+		return true
+	}
+	for i := 0; i+len(xs) <= len(ys); i++ {
+		if suffix && i+len(xs) != len(ys) {
+			continue
+		}
+		ok := true
+		for j := range xs {
+			if xs[j] != ys[i+j] {
+				ok = false
+
+				break
+			}
+		}
+		if ok {
+			return true
+		}
+	}
+
+	return false
+}
+
+// judgeLogLine evaluates the property on one recorded line, directly.  The answer column is the constant
+// "accept": a failure is reported through r.Fail (and the Lean driver's "reject" then shows up as a mismatch).
+func judgeLogLine(r *hx.Run, line string) string {
+	f := strings.Fields(line)
+	c := curCtx
+	if f[0] == "vhist" {
+		c.hist, c.has = f[1:], true
+
+		return "ok"
+	}
+	if len(f) < 3 {
+		return "bad-op"
+	}
+	kind := c.kind
+	if kind == "" {
+		kind = map[string]string{"vsub": "var", "ssub": "set", "sref": "set"}[f[0]]
+	}
+	active, final, evs := f[1] == "active", f[2], f[3:]
+	// exclusivity, completion, nothing after unsubscribe returned
+	inside, seenU := false, false
+	for _, e := range evs {
+		switch {
+		case strings.HasPrefix(e, "e:"):
+			if inside {
+				fail(r, kind, "overlap", "two callbacks of one subscription ran concurrently", line)
+
+				return "accept"
+			}
+			if seenU {
+				fail(r, kind, "after-unsubscribe", "a callback started after unsubscribe() had returned", line)
+
+				return "accept"
+			}
+			inside = true
+		case e == "x":
+			if !inside {
+				fail(r, kind, "overlap", "callback exit without enter", line)
+
+				return "accept"
+			}
+			inside = false
+		case e == "u":
+			seenU = true
+		}
+	}
+	if inside {
+		fail(r, kind, "unfinished", "a callback was still running after all goroutines were joined", line)
+
+		return "accept"
+	}
+	ns := noteTokens(evs)
+	switch f[0] {
+	case "vsub":
+		prev := "0"
+		for _, n := range ns {
+			pn := strings.SplitN(n, ":", 2)
+			if pn[0] != prev {
+				fail(r, kind, "chain", fmt.Sprintf("note (%s) follows a note whose new value was %s", n, prev), line)
+
+				return "accept"
+			}
+			prev = pn[1]
+		}
+		if active && prev != final {
+			fail(r, kind, "last-is-final", fmt.Sprintf("last reported value %s, Get() = %s", prev, final), line)
+
+			return "accept"
+		}
+		if c.has {
+			var ps []string
+			for i := 0; i+1 < len(c.hist); i++ {
+				ps = append(ps, c.hist[i]+":"+c.hist[i+1])
+			}
+			if !runOf(ns, ps, false) && !(len(ns) > 0 && runOf(ns[1:], ps, false)) {
+				fail(r, kind, "exactly-once", "the notes are not a contiguous run of the variable's history", line)
+			}
+		}
+	case "ssub", "sref":
+		fold := map[int]bool{}
+		for _, n := range ns {
+			ad := strings.SplitN(n, ":", 2)
+			for _, x := range parseInts(ad[0]) {
+				fold[x] = true
+			}
+			for _, x := range parseInts(ad[1]) {
+				delete(fold, x)
+			}
+		}
+		var fl []int
+		for x := range fold {
+			fl = append(fl, x)
+		}
+		if active && showInts(fl) != final {
+			fail(r, kind, "set-fold", fmt.Sprintf("folding the notes gives {%s}, ToSlice() = {%s}", showInts(fl), final), line)
+
+			return "accept"
+		}
+		if f[0] == "sref" {
+			c.ref, c.has = ns, true
+		} else if c.has {
+			if !runOf(ns, c.ref, active) && !(len(ns) > 0 && runOf(ns[1:], c.ref, active)) {
+				fail(r, kind, "exactly-once", "the notes are not a contiguous run (suffix, if still subscribed) of what the reference subscription saw", line)
+			}
+		}
+	}
+
+	return "accept"
+}
+
+func emitRound(r *hx.Run, kind, histLine string, rd *round, lineKind, final string) {
+	curCtx = &judgeCtx{kind: kind}
+	var all []string
+	if histLine != "" {
+		r.Line(histLine, judgeLogLine(r, histLine))
+	}
+	mid := false
+	for i, s := range rd.subs {
+		lk := lineKind
+		if kind == "set" && i == 0 {
+			lk = "sref"
+		}
+		line := s.line(lk, final)
+		if d, _ := s.direct.Load().(string); d != "" {
+			fail(r, kind, d, "observed from inside the callback", line)
+		}
+		r.Line(line, judgeLogLine(r, line))
+		all = append(all, line)
+		ns := noteTokens(strings.Fields(line)[3:])
+		r.CountN("stress:"+kind+":notes", len(ns))
+		r.Count("stress:" + kind + ":subscriptions:" + strings.Fields(line)[1])
+		if !(kind == "set" && i == 0) && len(ns) >= 2 && (kind != "var" || !strings.HasSuffix(ns[0], ":0") && strings.HasPrefix(ns[0], "0:")) {
+			mid = true
+		}
+	}
+	r.Count("stress:" + kind + ":rounds")
+	if mid {
+		r.Count("stress:" + kind + ":rounds-with-midstream-subscription")
+		h := sha256.Sum256([]byte(strings.Join(all, "\n")))
+		r.Nontrivial(string(h[:8]))
+	}
+	curCtx = &judgeCtx{}
+}
+
+func stressOne(r *hx.Run, kind string, seed uint64) bool {
+	rng := hx.NewRng(seed)
+	switch kind {
+	case "var":
+		return stressVar(r, rng)
+	case "set":
+		return stressSet(r, rng)
+	case "event":
+		return stressEvent(r, rng)
+	}
+
+	return true
+}
+
+// runStressLines re-runs the round a `stress <kind> <seed>` line describes (replay).
+func runStressLines(r *hx.Run, op string) {
+	f := strings.Fields(op)
+	if len(f) < 3 {
+		r.Line(op, "bad-op")
+
+		return
+	}
+	seed, _ := strconv.ParseUint(f[2], 10, 64)
+	r.Line(op, "ok")
+	stressOne(r, f[1], seed)
+}
+
+func runStress(r *hx.Run) {
+	rounds := 900 * r.Scale
+	kinds := []string{"var", "set", "var", "set", "event"}
+	for i := 0; i < rounds; i++ {
+		seed := r.Rng.U64()
+		kind := kinds[i%len(kinds)]
+		r.Case(seed)
+		r.Line(fmt.Sprintf("stress %s %d", kind, seed), "ok")
+		if !stressOne(r, kind, seed) {
+			return // a timed-out round leaves goroutines behind: stop here, the failure is recorded
+		}
+		if i < 2 {
+			r.Sample(r.CaseLines())
+		}
+	}
+}
